@@ -23,7 +23,10 @@ from props import c08 as base
 ID = "C20"
 BUILD_C = True
 AUDIT_IMPORTS = ["HypatiaProofs.Properties.C20"]
-THEOREMS = []
+THEOREMS = ["Hyp.C20." + t for t in (
+    "c20_apply_normalised", "c20_apply_passthrough", "c20_okapi_raw_bound", "c20_okapi_bound",
+    "c20_cosine_repeated_term", "c20_sort_weighted", "c20_sort_limit", "c20_sort_empty",
+    "c20_sort_unweighted")]
 CASES = {"quick": 900, "thorough": 30000}
 BUDGET_S = {"quick": 45, "thorough": 780}
 BATCH = 40
